@@ -383,7 +383,13 @@ def both_backends(inp):
     out = {}
     fins = ({}, {})
     for k, b in enumerate(("stabilizer", "dm")):
-        r = run_case(inp, b, finals=fins[k])
+        try:
+            r = run_case(inp, b, finals=fins[k])
+        except Exception as e:  # noqa: BLE001 - an escaping exception fails every aspect of THIS backend (as vf.bounded._call would)
+            import traceback
+            msg = f"EXC {type(e).__name__}: {e} | {traceback.format_exc(limit=6)[-900:]}"
+            r = {a: msg for a in ASPECTS}
+            fins[k].clear()
         for a in ASPECTS:
             out[f"{b}.{a}"] = r[a]
     out["agree"] = agree_case(inp, fins)
@@ -394,7 +400,7 @@ _SITE_S = "graphiq.backends.stabilizer.compiler:StabilizerCompiler.compile_one_g
 _SITE_D = "graphiq.backends.density_matrix.compiler:DensityMatrixCompiler.compile_one_gate (via CompilerBase.compile)"
 _B_EX = ("all programs of <=2 ops over the 14 op kinds (I,H,P,Pdag,X,Y,Z,wrapper,CNOT,CZ,classical-CNOT,classical-CZ,"
          "Z-measure,measure-CNOT-reset) on all 8 register configurations with <=2 emitters, <=2 photons, 1 classical "
-         "register (+ the 3 two-qubit configurations with 2 classical registers); wrapper bodies: all 24 Clifford words + 7 non-canonical words in 1-op programs, {W} in 2-op programs; "
+         "register (+ the 3 two-qubit configurations with 2 classical registers; + 1440 3-op programs [prepare control, prepare target in any of the 6 one-qubit stabilizer states, any two-qubit op] on (1e,1p),(2e,1p)); wrapper bodies: all 24 Clifford words + 7 non-canonical words in 1-op programs, {W} in 2-op programs; "
          "x measurement_determinism 0, 1 and 'probabilistic' ({K} seeds, oracle conditioned on the recorded outcomes); dm forced modes "
          "skipped on the few programs whose forced choice sits on a rounding-affected threshold (see item forced_outcome_under_rounding)")
 _B_RND = ("{N} seeded random programs of <=30 ops on <=5 qubits, 1-3 classical registers, modes 'probabilistic' ({K} seeds) and 0/1 "
@@ -556,6 +562,25 @@ def _pseeds(seed, i, k):
     return [int((seed * 1000003 + i * 7919 + j * 104729) % (2**31 - 1)) for j in range(k)]
 
 
+PREP = [["I"], ["X"], ["H"], ["H", "X"], ["P", "H"], ["PD", "H"]]  # wrapper bodies preparing |0>,|1>,|+>,|->,|+i>,|-i>
+
+
+def prepared_two_qubit_programs():
+    """3-op programs [prepare control, prepare target, two-qubit op]: every two-qubit op kind on every ordered register pair
+    of (1e,1p) and (2e,1p) with control and target in each of the six one-qubit stabilizer states (2-op programs cannot
+    tell a conditional Z, or a sign error on Y-type rows, from the identity)"""
+    out = []
+    for ne, np_ in ((1, 1), (2, 1)):
+        q = RC.regs(ne, np_)
+        for (ct, c), (tt, t) in itertools.permutations(q, 2):
+            for a in PREP:
+                for b in PREP:
+                    for k in ("cx", "cz", "ccx", "ccz", "mcr"):
+                        op2 = [k, ct, c, tt, t] + ([0] if k in ("ccx", "ccz", "mcr") else [])
+                        out.append({"ne": ne, "np": np_, "nc": 1, "ops": [["w", a, ct, c], ["w", b, tt, t], op2]})
+    return out
+
+
 _W2_QUICK = [RC.WORDS24[5], RC.WORDS24[10], RC.WORDS24[15], RC.EXTRA_WORDS[1]]
 
 
@@ -573,6 +598,7 @@ def domain_exhaustive(tier, seed):
         progs += [p for p in RC.enumerate_programs(2, words1, RC.WORDS24 + [RC.EXTRA_WORDS[1]]) if jkey(p) not in seen]
     # two classical registers (every op of the alphabet on either register) on the two-qubit configurations
     progs += list(RC.enumerate_programs(2, [RC.WORDS24[5]], [RC.WORDS24[5]], configs=[(1, 1), (0, 2), (2, 0)], nc=2))
+    progs += prepared_two_qubit_programs()
     w = len(_W2_QUICK) if tier != "thorough" else 25
     return [{"prog": p, "pseeds": _pseeds(seed, i, k)} for i, p in enumerate(progs)], w, k
 
